@@ -102,7 +102,7 @@ pub fn spec_c04() -> PropSpec {
         id: "C04",
         profile: pf,
         tape_len: 400,
-        make: || vec![Box::new(ValueOracle::new()), Box::new(super::c03::Justify::new()), Box::new(Untracked::new())],
+        make: || vec![Box::new(super::c06::Aux(Box::new(ValueOracle::new()))), Box::new(super::c06::Aux(Box::new(super::c03::Justify::new()))), Box::new(Untracked::new())],
         nt_rule: "",
     }
 }
